@@ -211,3 +211,102 @@ def check_C14(tier):
     from drivers import budget
 
     return budget.run(Check("C14", tier, level="fault_enumeration"), tier)
+
+
+def check_C16(tier):
+    from drivers import ocf
+
+    chk = Check("C16", tier)
+    rng = random.Random(chk.seed)
+    infer.verify_theorems(chk, ["ZModel", "ZAccept"], tier, rng)
+    _mc_ocf(chk, tier)
+    scen = ocf.gen_scenarios(rng, ["z"], 400 if tier == "quick" else 5000, persistence=False)
+    keep = ocf.run_lifecycles(chk, scen, "z")
+    chk.cov["construct_refused"] = sum(1 for r in keep if r["events"] and r["events"][0].get("outcome") == "refused")
+    chk.cov["with_facts"] = sum(1 for r in keep if r["sc"]["facts"])
+    chk.cov["rule"] = (
+        "MC_Ocf: all interleavings of lazy/forced/bulk ranking, save, failed save, load (<= 2 objects, 6 steps) keep the cache exact. Real code: System Z ranking objects for seeded bases over "
+        "2-3 atoms (consistent for the mode; any shape when facts are given), fact lists of 0-2 formulas, extended in {None, False, True}; random orders of rank_world (lazy/forced), "
+        "compute_all_ranks, formula_rank, conditional_acceptance, plus the System Z operator's answer to the same query; every life cycle is a trace validated by TLC against Ocf.tla with "
+        "full = KZStar(Augment(base, facts)) from the semantic core (refusal iff the combination is inconsistent for the mode). Non-trivial = life cycle with at least one lazy operation."
+    )
+    if keep:
+        chk.sample({"scenario": {"base": [M_render(c) for c in keep[0]["sc"]["base"]], "facts": [M_r(f) for f in keep[0]["sc"]["facts"]], "extended": keep[0]["sc"]["extended"]}, "events": keep[0]["events"][:6]})
+    return chk.finish()
+
+
+def M_render(c):
+    import model as M
+
+    return M.render_cond(*c)
+
+
+def M_r(f):
+    import model as M
+
+    return M.render(f)
+
+
+def _mc_ocf(chk, tier):
+    import tlc
+    from common import machinery_failure
+
+    cfg = tlc.cfg_text(invariants=["CacheExact", "DiskExact", "CopiesAgree"], properties=["Monotone"], constants={"MaxObjs": 2, "MaxSteps": 6 if tier == "quick" else 7})
+    res = tlc.run("MC_Ocf", cfg, f"{chk.prop}_mc_ocf", timeout=3000)
+    if res.violated:
+        machinery_failure(f"MC_Ocf: {res.violated} violated by the specification itself")
+    tlc.require_ok(res, "MC_Ocf")
+    chk.add_tlc("MC_Ocf", res, "interleavings of lazy ranking, save, failed save, load")
+
+
+def check_C18(tier):
+    from drivers import ocf
+
+    chk = Check("C18", tier)
+    rng = random.Random(chk.seed)
+    _mc_ocf(chk, tier)
+    ocf.run_laws(chk, tier, rng)
+    scen = ocf.gen_scenarios(rng, ["custom", "z", "c"], 90 if tier == "quick" else 1500, persistence=False)
+    ocf.run_lifecycles(chk, scen, "kinds")
+    chk.cov["exhaustive"] = True
+    chk.cov["rule"] = (
+        "Every total ranking [W -> 0..3] over 1 and 2 atoms (4 + 256, exhaustive), seeded rankings over 3-4 (thorough: up to 6) atoms, half of them asymmetric by construction; per ranking: "
+        "formula_rank (3 formulas), conditional_acceptance (3 conditionals), marginalize (2 proper atom subsets), compute_conditionalization (2 formulas), ranks2tpo and tpo2ranks with a rank-valued and two "
+        "strictly increasing layer numberings; each call is an event whose result TLC compares with the law evaluated on the ranking (FRank, Accepts, Marg, CondOn, Tpo, SameOrder). System Z and "
+        "c-representation objects go through the same operations in life-cycle traces (Trace_Ocf). Non-trivial = ranking with at least two different ranks."
+    )
+    return chk.finish()
+
+
+def check_C20(tier):
+    from drivers import ocf
+
+    chk = Check("C20", tier)
+    rng = random.Random(chk.seed)
+    _mc_ocf(chk, tier)
+    scen = ocf.gen_scenarios(rng, ["z", "c", "custom"], 150 if tier == "quick" else 2000, persistence=True)
+    keep = ocf.run_lifecycles(chk, scen, "persist")
+    cnt = {"save_ok": 0, "save_failed": 0, "load": 0, "fresh_process_load": 0, "roundtrips": 0}
+    for r in keep:
+        for e in r["events"]:
+            if e["ev"] == "save":
+                cnt["save_ok" if e["ok"] else "save_failed"] += 1
+            elif e["ev"] == "load":
+                cnt["fresh_process_load" if e.get("fresh_process") else "load"] += 1
+            elif e["ev"] == "same":
+                cnt["roundtrips"] += 1
+    chk.cov.update(cnt)
+    if cnt["save_failed"] == 0 or cnt["fresh_process_load"] == 0:
+        from common import machinery_failure
+
+        machinery_failure("C20: no failed save or no fresh-process load was exercised (vacuous)")
+    chk.cov["rule"] = (
+        "MC_Ocf: save from every partial-computation state, failed save, load, continued lazy ranking on original and copy. Real code: objects of every kind (System Z, c-representation, custom) go through "
+        "seeded life cycles with save_ocf from partially computed states, real failures (missing directory, unwritable path, an unpicklable metadata member), load_ocf in the same process and in a fresh "
+        "interpreter, continued rank_world on original and copy, export/import of impacts (json, pickle, list) and metadata round trips (json, pickle, by suffix); each life cycle is a trace validated by TLC "
+        "against Ocf.tla: Save writes the current state and leaves the object (ranks, solver handles) unchanged, SaveFail changes nothing, Load yields the snapshot. Non-trivial = life cycle with a save or load."
+    )
+    if keep:
+        r = next((x for x in keep if any(e["ev"] == "save" and not e["ok"] for e in x["events"])), keep[0])
+        chk.sample({"kind": r["sc"]["kind"], "events": [{k: v for k, v in e.items() if k != "ranks"} for e in r["events"]][:12]})
+    return chk.finish()
